@@ -32,3 +32,42 @@ class RecReg(BaseEstimator, RegressorMixin):
 
     def predict(self, X):
         return numpy.array([self.sumy_ + r for r in ids(X)], dtype=numpy.float64)
+
+
+class RecClf(BaseEstimator, ClassifierMixin):
+    """Label-permutation-equivariant classifier: predicts the training label of the row with the same id; its
+    score for a class is 100 + 7 * (smallest training row id carrying that class)."""
+
+    def __init__(self, tag=0):
+        self.tag = tag
+
+    def fit(self, X, y, sample_weight=None):
+        rows = ids(X)
+        ys = [v.item() if hasattr(v, "item") else v for v in numpy.asarray(y).ravel()]
+        LOG.append(("fitclf", dict(tag=self.tag, rows=rows, ys=ys, obj=id(self))))
+        self.classes_ = numpy.array(sorted(set(ys)))
+        self.label_of_row_ = dict(zip(rows, ys))
+        self.score_ = {c: 100.0 + 7.0 * min(r for r, v in zip(rows, ys) if v == c) for c in self.classes_.tolist()}
+        return self
+
+    def predict(self, X):
+        return numpy.array([self.label_of_row_[r] for r in ids(X)], dtype=self.classes_.dtype)
+
+    def predict_proba(self, X):
+        row = [self.score_[c] for c in self.classes_.tolist()]
+        return numpy.array([row for _ in ids(X)], dtype=numpy.float64)
+
+
+class RecRegF(BaseEstimator, RegressorMixin):
+    """Regressor that records the (float) targets it is trained on and predicts fixed positive dyadic values."""
+
+    def __init__(self, tag=0):
+        self.tag = tag
+
+    def fit(self, X, y, sample_weight=None):
+        LOG.append(("fitregf", dict(tag=self.tag, rows=ids(X), ys=numpy.asarray(y, dtype=float).ravel().copy())))
+        self.fitted_ = True
+        return self
+
+    def predict(self, X):
+        return numpy.array([0.5 * (1 + (r % 4)) for r in ids(X)], dtype=numpy.float64)
